@@ -184,6 +184,7 @@ func FuncBuilder(env *Zlisp, name string,
 	// call sees this definition, not an earlier function of the same
 	// name (or none at all).
 	known := env.MakeFunction(funcName, nargs, varargs, nil, orig)
+	known.SetFormalSymbols(argsyms)
 	known.inputTypes = inHash
 	gen.knownFunctions[symN.number] = known
 	err = gen.GenerateBegin(body)
